@@ -9,6 +9,7 @@ CONSTANTS
  DelayBeforeStart = TRUE
  CancelInPlace = TRUE
  ForgetDiscarded = FALSE
+ TolerantCompletion = TRUE
  DropLateBoxes = FALSE
  Record = FALSE
 INVARIANT NoResidue
